@@ -22,6 +22,8 @@ EXPECT = {
     "seed-C14-b": ["C14"], "seed-C16-b": ["C16", "C03"],
     "seed-C05-c": ["C05"], "seed-C06-c": ["C06"], "seed-C07-c": ["C07"], "seed-C08-c": ["C08", "C03"], "seed-C10-c": ["C10"], "seed-C11-c": ["C11", "C03"],
     "seed-C15-c": ["C15"], "seed-C17-c": ["C17"], "seed-C18-c": ["C18"], "seed-C19-c": ["C19"],
+    "seed-C01-d": ["C01"], "seed-C02-d": ["C02"], "seed-C03-d": ["C03"], "seed-C04-d": ["C04"], "seed-C06-d": ["C06"], "seed-C09-d": ["C09"],
+    "seed-C12-d": ["C12", "C05"], "seed-C13-d": ["C13"], "seed-C14-d": ["C14"], "seed-C16-d": ["C16", "C05"],
 }
 
 
